@@ -308,3 +308,9 @@ def _cat_minus1(prop, case, f):
         return False
     d = f.get("detail", "")
     return d.startswith(("index 255 out of range", "index 65535 out of range", "index 4294967295 out of range")) and f.get("has_nulls") is not True
+
+
+@pred("int96-chunks-carry-min-max")
+def _int96_stats(prop, case, f):
+    # the format defines no order for INT96, so such chunks should carry no min/max; write_column computes them for every datetime column
+    return f.get("kind") == "minmax_for_type_without_order" and f.get("ptype") == "INT96"
